@@ -110,8 +110,9 @@ fn gen_slots(seed: u64, m: usize, mag: f64) -> (Vec<f64>, Vec<f64>) {
 
 fn cst_vals(seed: u64, re: bool, im: bool) -> (Option<f64>, Option<f64>) {
     let mut s = seed.wrapping_mul(0x2545F4914F6CDD1D) ^ 0x9E3779B97F4A7C15;
-    let r = lcg(&mut s) * 0.75;
-    let i = lcg(&mut s) * 0.75;
+    // |c| < 0.5: a constant of precision {log_delta, 0} with log_delta a multiple of base2k holds only (-0.5, 0.5)
+    let r = lcg(&mut s) * 0.45;
+    let i = lcg(&mut s) * 0.45;
     (if re { Some(r) } else { None }, if im { Some(i) } else { None })
 }
 
@@ -285,7 +286,8 @@ macro_rules! backend_impl {
                 let sub = name.starts_with("sub") || name.starts_with("mul_sub");
                 let sgn = if sub { -1.0 } else { 1.0 };
                 // operand plaintext / constant values derived from the step number
-                let pvals = gen_slots(1000 + step, m, 0.9);
+                // small enough for a plaintext of log_budget 0 whose log_delta is a multiple of base2k
+                let pvals = gen_slots(1000 + step, m, 0.2);
                 match (name, f.len()) {
                     ("enc", 6) => {
                         let d = slot(f[1])?;
